@@ -1186,6 +1186,12 @@ impl GenericIfData {
                     }
                 }
             }
+            Self::Array(items) | Self::Sequence(items) => {
+                // arrays and sequences have no include information of their own, but their items can
+                for item in items {
+                    item.merge_includes();
+                }
+            }
             _ => {}
         }
     }
